@@ -252,21 +252,27 @@ func (l *LightClientAttackEvidence) GetByzantineValidators(commonVals *Validator
 		return validators
 	} else if trusted.Commit.Round == l.ConflictingBlock.Commit.Round {
 		// This is an equivocation attack as both commits are in the same round. We then find the validators
-		// from the conflicting light block validator set that voted in both headers.
+		// that signed both headers. A precommit for nil is not a signature for the header (and nobody
+		// verifies it), so only signatures for the block count on either side.
 		// Validator hashes are the same therefore the indexing order of validators are the same and thus we
 		// only need a single loop to find the validators that voted twice.
-		for i := 0; i < len(l.ConflictingBlock.Commit.Signatures); i++ {
+		for i := 0; i < len(l.ConflictingBlock.Commit.Signatures) && i < len(trusted.Commit.Signatures); i++ {
 			sigA := l.ConflictingBlock.Commit.Signatures[i]
-			if sigA.Absent() {
+			if !sigA.ForBlock() {
 				continue
 			}
 
 			sigB := trusted.Commit.Signatures[i]
-			if sigB.Absent() {
+			if !sigB.ForBlock() {
 				continue
 			}
 
-			_, val := l.ConflictingBlock.ValidatorSet.GetByAddress(sigA.ValidatorAddress)
+			// report the validator as a member of the validator set of the evidence's height
+			_, val := commonVals.GetByAddress(sigA.ValidatorAddress)
+			if val == nil {
+				// an address that is not a validator's must not end up as a nil entry
+				continue
+			}
 			validators = append(validators, val)
 		}
 		sort.Sort(ValidatorsByVotingPower(validators))
